@@ -100,6 +100,42 @@ Definition rec_matches (s : rstate) (dnames anames : list N) (files : list (N * 
     list_eqb Z.eqb (file s d) fobs
     && match fobs with [] => true | _ => amap_matches (fattrs s d) anames aobs end) dnames.
 
+(* ---- numbered names ----------------------------------------------------------------------------- *)
+(* what the harness observes of the reader on a special column: verified as the index column of axis
+   n, taken as the scale of axis n, ignored, or an exception *)
+Inductive sobs := OIndex (n : nat) | OScale (n : nat) | OIgnored | OError.
+Definition sobs_eqb (a b : sobs) : bool :=
+  match a, b with
+  | OIndex n, OIndex m | OScale n, OScale m => Nat.eqb n m
+  | OIgnored, OIgnored | OError, OError => true
+  | _, _ => false
+  end.
+Definition special_eqb (a b : special) : bool :=
+  match a, b with
+  | SIndex x, SIndex y | SScale x, SScale y => Z.eqb x y
+  | SOther, SOther | SBadInt, SBadInt | SUnmodelled, SUnmodelled => true
+  | _, _ => false
+  end.
+(* the observation the model predicts; None = outside the model (negative number, unmodelled int()) *)
+Definition special_obs (nax : nat) (s : special) : option sobs :=
+  let inr (z : Z) (o : nat -> sobs) :=
+      if Z.ltb z 0 then None else if Z.ltb z (Z.of_nat nax) then Some (o (Z.to_nat z)) else Some OError in
+  match s with
+  | SIndex z => inr z OIndex
+  | SScale z => inr z OScale
+  | SOther => Some OIgnored
+  | SBadInt => Some OError
+  | SUnmodelled => None
+  end.
+
+(* the label is exactly what the writer renders for an axis of this file *)
+Definition canonical_special (nax : nat) (l : str) : bool :=
+  match parse_special l with
+  | SIndex z => Z.leb 0 z && Z.ltb z (Z.of_nat nax) && str_eqb l (scheme_name NIndex (Z.to_nat z))
+  | SScale z => Z.leb 0 z && Z.ltb z (Z.of_nat nax) && str_eqb l (scheme_name NScale (Z.to_nat z))
+  | _ => false
+  end.
+
 (* ---- cases -------------------------------------------------------------------------------------- *)
 Inductive case :=
 (* a header attribute: printable table, name, Python-level value, the line the real writer
@@ -113,7 +149,11 @@ Inductive case :=
           (scales : list (nat * list Z * list Z))
 | CStore (ops : list cop) (obs : list cobs) (final : list (path * kind))
 | CRec (trace : list rlabel) (dnames anames : list N) (files : list (N * list Z))
-       (attrs : list (N * list (N * Z))).
+       (attrs : list (N * list (N * Z)))
+(* a numbered name the real writer produced for axis / column number n *)
+| CName (k : nscheme) (n : nat) (name : str)
+(* the real reader's treatment of a special column labelled [label] in a file with nax axes *)
+| CSpecial (nax : nat) (label : str) (obs : sobs).
 
 (* accU = true: what the property demands (every repr is read back); accU = false: the reader as
    it is in the tree (the harness uses it to classify a disagreement as the known \U finding) *)
@@ -139,6 +179,22 @@ Definition check_with (accU : bool) (c : case) : bool :=
       match rrun rinit trace with
       | Some s => done s && rec_matches s dnames anames files attrs
       | None => false
+      end
+  | CName k n name =>
+      str_eqb (scheme_name k n) name
+      && match k with
+         | NIndex => special_eqb (parse_special name) (SIndex (Z.of_nat n))
+         | NScale => special_eqb (parse_special name) (SScale (Z.of_nat n))
+         | _ => true
+         end
+  | CSpecial nax label obs =>
+      match special_obs nax (parse_special label) with
+      | Some o =>
+          if canonical_special nax label then sobs_eqb o obs
+          else (* a label the writer never emits: the pinned reader's treatment is predicted, but a reader
+                  that ignores or refuses it is not a disagreement — only taking it for ANOTHER axis or kind is *)
+               sobs_eqb o obs || sobs_eqb OIgnored obs || sobs_eqb OError obs
+      | None => true
       end
   end.
 
